@@ -54,12 +54,15 @@ def main():
     ap.add_argument("--checks", default=None)
     ap.add_argument("--tier", default="quick")
     ap.add_argument("--seed", default="0")
+    ap.add_argument("--wt", default=None, help="worktree holding changeN.diff / demoN.py (default /tmp/wt-<Cxx>)")
+    ap.add_argument("--as-id", default=None, help="number to record the change under in seeded/ (default N)")
     a = ap.parse_args()
-    wt = "/tmp/wt-%s" % a.prop
+    wt = a.wt or "/tmp/wt-%s" % a.prop
     diff = os.path.join(wt, "change%s.diff" % a.n)
     demo = os.path.join(wt, "demo%s.py" % a.n)
     checks = (a.checks or a.prop).split(",")
-    meta = {"property": a.prop, "change": a.n, "worktree": wt, "checks_run": checks, "tier": a.tier, "when": time.strftime("%Y-%m-%d %H:%M:%S")}
+    rec_id = a.as_id or a.n
+    meta = {"property": a.prop, "change": rec_id, "worktree": wt, "checks_run": checks, "tier": a.tier, "when": time.strftime("%Y-%m-%d %H:%M:%S")}
     sh("git checkout -- xdis", cwd=wt)
     rc0, out0 = sh("/venv/bin/python %s" % os.path.basename(demo), cwd=wt, timeout=1200)
     meta["demo_without_change_rc"] = rc0
@@ -95,7 +98,7 @@ def main():
         meta["caught_by"] = sorted(c for c, r in results.items() if r["exit"] == 1)
     finally:
         sh("git checkout -- xdis", cwd=wt)
-    out_dir = os.path.join(VERIF, "seeded", "%s-%s" % (a.prop, a.n))
+    out_dir = os.path.join(VERIF, "seeded", "%s-%s" % (a.prop, rec_id))
     os.makedirs(out_dir, exist_ok=True)
     shutil.copyfile(diff, os.path.join(out_dir, "patch.diff"))
     shutil.copyfile(demo, os.path.join(out_dir, "demo.py"))
